@@ -339,6 +339,10 @@ func (wf *Workflow) readyToRun(procs map[string]WorkflowProcess) bool {
 			return false
 		}
 	}
+	if wf.driver != WorkflowProcess(wf.sink) && !wf.driver.Ready() {
+		Error.Println(wf.name + ": Not everything connected. Workflow shutting down.")
+		return false
+	}
 	return true
 }
 
